@@ -112,7 +112,16 @@ def _mk(target, receiver_classes, data):
                         except Exception as e:  # noqa: BLE001
                             obs[name] = f"validated anyway: {type(e).__name__}"
                             bad = True
-                return bad, {"validation_enabled=False": obs}
+                # C06: a column may have ANY name - also the name of an attribute some other dataframe library has ("dask", ...)
+                named = {}
+                if "receiver='DataFrameSchema'" in recv or "receiver=" not in recv:
+                    for col in ("dask", "map_partitions", "pandera"):
+                        try:
+                            pa.DataFrameSchema({col: pa.Column(int)}).validate(pd.DataFrame({col: [1, 2]}))
+                        except Exception as e:  # noqa: BLE001
+                            named[f"DataFrame with a column named {col!r}"] = f"raised {type(e).__name__}: {e}"[:160]
+                            bad = True
+                return bad, {"validation_enabled=False": obs, **named}
 
             return thunk
 
